@@ -95,6 +95,68 @@ func safeDecode(t reflect.Type, b []byte) (v reflect.Value, n int, class string)
 	return v, n, errClass(err)
 }
 
+// test-only types that are registered in the middle of a run
+type verifLateEO struct {
+	A    uint32
+	Name string
+	V    *ua.Variant
+}
+type verifLateSvc struct {
+	N uint32
+	S string
+}
+
+const lateDescriptor = "(TStruct [(TInt 4 false); TString; (TCustom CVariant)])"
+
+func lateRegistration(enc *json.Encoder, emit func(target, reflect.Value), eoTarget target) {
+	ids := []*ua.NodeID{ua.NewNumericNodeID(2, 4242424), ua.NewFourByteNodeID(3, 60001)}
+	body := cat(le32(7), le32(2), []byte{0x68, 0x69}, []byte{0x06, 0x2a, 0, 0, 0})
+	var before [][]byte
+	entries := ""
+	for _, id := range ids {
+		idb, _ := safeEncode(&ua.ExpandedNodeID{NodeID: id})
+		b := cat(idb, []byte{1}, le32(uint32(len(body))), body)
+		before = append(before, b)
+		e := new(ua.ExtensionObject)
+		_, err := e.Decode(b)
+		enc.Encode(obs{"k": "late", "step": "extension object decoded before its type is registered", "id": id.String(), "hex": hex.EncodeToString(b),
+			"ok": err == nil && e.Value == nil, "what": fmt.Sprintf("err=%v value=%T (want no error, nil value)", err, e.Value)})
+		if entries != "" {
+			entries += "; "
+		}
+		entries += fmt.Sprintf("(%d, %d, %s)", id.Namespace(), id.IntID(), lateDescriptor)
+	}
+	const svcID = 60002
+	svcBody := cat(le32(9), le32(1), []byte{0x7a})
+	sidb, _ := safeEncode(ua.NewFourByteExpandedNodeID(0, svcID))
+	_, _, err := ua.DecodeService(cat(sidb, svcBody))
+	enc.Encode(obs{"k": "late", "step": "service decoded before its type is registered", "id": fmt.Sprint(svcID),
+		"ok": err == ua.StatusBadServiceUnsupported, "what": fmt.Sprintf("err=%v (want StatusBadServiceUnsupported)", err)})
+
+	for _, id := range ids {
+		ua.RegisterExtensionObject(id, new(verifLateEO))
+	}
+	ua.RegisterService(svcID, new(verifLateSvc))
+	enc.Encode(obs{"k": "late-reg", "entries": "[" + entries + "]"})
+
+	for i, id := range ids {
+		// the bytes that were dropped before must now decode into the registered type
+		e := new(ua.ExtensionObject)
+		_, err := e.Decode(before[i])
+		v, isT := e.Value.(*verifLateEO)
+		enc.Encode(obs{"k": "late", "step": "extension object decoded after its type was registered", "id": id.String(), "hex": hex.EncodeToString(before[i]),
+			"ok":   err == nil && isT && v.A == 7 && v.Name == "hi" && v.V != nil && v.V.Value() == int32(42),
+			"what": fmt.Sprintf("err=%v value=%T", err, e.Value)})
+		// and a value of the type round-trips (model: the registry after the registration)
+		emit(eoTarget, reflect.ValueOf(&ua.ExtensionObject{TypeID: &ua.ExpandedNodeID{NodeID: id}, EncodingMask: ua.ExtensionObjectBinary,
+			Value: &verifLateEO{A: 0xfffffffe, Name: "late", V: ua.MustVariant([]string{"a", "b"})}}))
+	}
+	_, got, err := ua.DecodeService(cat(sidb, svcBody))
+	sv, isT := got.(*verifLateSvc)
+	enc.Encode(obs{"k": "late", "step": "service decoded after its type was registered", "id": fmt.Sprint(svcID),
+		"ok": err == nil && isT && sv.N == 9 && sv.S == "z", "what": fmt.Sprintf("err=%v value=%T", err, got)})
+}
+
 // serviceTie runs ua.DecodeService on a four-byte type id followed by the body and compares with ua.Decode's result
 func serviceTie(sid uint16, body []byte, dval string) (res string) {
 	defer func() {
@@ -182,6 +244,9 @@ func values(seed uint64, n int, emptyEO bool) {
 	}
 	// arrays of minimal-size elements of every builtin type, (a) as the last thing in the buffer (a bare Variant),
 	// (b) followed by other fields (inside a DataValue with status and timestamps), (c) two of them in a ReadResponse
+	// late registration: an id that was looked up while it was not registered and is registered afterwards (a client
+	// registering vendor types after it has seen them) must decode like any other registered type
+	lateRegistration(enc, emit, customs[6])
 	// rank 3 / rank 4 arrays with pairwise different elements and trailing dimensions > 1 (strides of split / flattening)
 	for i, m := range g.distinctArrays() {
 		emit(customs[0], reflect.ValueOf(m))
@@ -364,6 +429,20 @@ func handcrafted() []hcase {
 		// Variant -> ExtensionObject(XML body is a leaf; here: unknown type, body skipped) / Variant -> DataValue -> Variant ...
 		add(V, fmt.Sprintf("limit: Variant/DataValue/DiagnosticInfo mixed chain %d", k),
 			cat(rep([]byte{0x17, 0x01}, k/2), []byte{0x19}, rep([]byte{0x40}, k%2+1), []byte{0}))
+	}
+	// nesting through registered structures: Variant{ExtensionObject{KeyValuePair{Key, Value: Variant{...}}}}: two levels a round
+	kvID, _ := safeEncode(ua.ExtensionObjectTypeID(&ua.KeyValuePair{}))
+	round := func(inner []byte) []byte {
+		b := cat([]byte{0, 0}, le32(0xffffffff), inner) // QualifiedName{0, ""}, Value
+		return cat([]byte{0x16}, kvID, []byte{1}, le32(uint32(len(b))), b)
+	}
+	chain := []byte{0x01, 0x01}
+	for k := 1; k <= 51; k++ {
+		chain = round(chain)
+		if k <= 3 || k >= 28 {
+			add(V, fmt.Sprintf("limit: %d rounds of Variant/ExtensionObject/KeyValuePair", k), chain)
+			add(DV, fmt.Sprintf("limit: DataValue with %d rounds of Variant/ExtensionObject/KeyValuePair", k), cat([]byte{0x03}, chain, le32(0x80000000)))
+		}
 	}
 	for _, n := range []int{31, 32, 33, 64} {
 		add(V, fmt.Sprintf("limit: %d dimensions of 1", n), cat([]byte{0xc6}, le32(1), le32(9), le32(uint32(n)), rep(le32(1), n)))
